@@ -50,7 +50,7 @@ func (h *Handler) remove(id string) {
 	h.trackedM.Lock()
 	defer h.trackedM.Unlock()
 	if iter, ok := h.tracked[id]; ok {
-		close(iter.msgC)
+		close(iter.done)
 		delete(h.tracked, id)
 	}
 }
@@ -79,22 +79,28 @@ func (h *Handler) HandleMessage(msg stanza.Message, r xmlstream.TokenReadEncoder
 		}
 	}
 	h.trackedM.Lock()
-	defer h.trackedM.Unlock()
 	iter, ok := h.tracked[queryID]
-	if !ok {
-		if h.inner != nil {
-			return h.inner.HandleMessage(msg, struct {
-				xml.TokenReader
-				xmlstream.Encoder
-			}{
-				TokenReader: xmlstream.MultiReader(xmlstream.Token(tok), xmlstream.InnerElement(r)),
-				Encoder:     r,
-			})
+	h.trackedM.Unlock()
+	if ok {
+		// Hand the message to the iterator unless the query ends first. The lock
+		// must not be held while waiting for the consumer: Iter.Close and the end
+		// of the query take it, and would deadlock with a result that is still
+		// waiting to be picked up.
+		select {
+		case iter.msgC <- xmlstream.MultiReader(xmlstream.Token(msgTok), xmlstream.Token(tok), r):
+			return nil
+		case <-iter.done:
 		}
-		return nil
 	}
-
-	iter.msgC <- xmlstream.MultiReader(xmlstream.Token(msgTok), xmlstream.Token(tok), r)
+	if h.inner != nil {
+		return h.inner.HandleMessage(msg, struct {
+			xml.TokenReader
+			xmlstream.Encoder
+		}{
+			TokenReader: xmlstream.MultiReader(xmlstream.Token(tok), xmlstream.InnerElement(r)),
+			Encoder:     r,
+		})
+	}
 	return nil
 }
 
@@ -124,6 +130,7 @@ func (h *Handler) FetchIQ(ctx context.Context, filter Query, iq stanza.IQ, s *xm
 	msgC := make(chan xml.TokenReader)
 	iter := &Iter{
 		msgC: msgC,
+		done: make(chan struct{}),
 		h:    h,
 		id:   filter.ID,
 	}
